@@ -227,9 +227,6 @@ func e2Prefix(t *engine.T, s modeSpec, dec bool, w string, ps []param, lengths [
 				return f
 			})
 			t.Nontrivial(fmt.Sprintf("%s/%s/%d", prefix, ivClass(p), n))
-			if t.Failed() && n > 700 {
-				break // enough detail; the remaining lengths of a failing case add nothing
-			}
 		}
 		if len(want) > 0 {
 			t.Outcome(fmt.Sprintf("%s:%02x", s.name, want[len(want)-1]))
